@@ -45,6 +45,8 @@ def run(db, rep, tier):
     rep.rule("R9-skip-agreement", "802.11 management subtypes skip, before their fixed parameters, exactly the bytes the management base "
                                   "class read and writes (its header_size(), fourth address included)", 1)
     r9(db, rep)
+    from rules import c04_opts
+    c04_opts.run(db, rep)
     rep.explanation = ("Structural part of C04: item-level agreement of typed option encoders and decoders (R1), one code per accessor pair (R2), "
                        "cached sizes follow add/remove (R3), first-match lookup and exact removal (R4), one storage predicate in PDUOption (R5). "
                        "NOT decided: the shadow-model clause over arbitrary edit histories, computed length bytes (IPv6 length_field()/8, DNS "
